@@ -12,7 +12,8 @@ const pkgPR = "lib/persistedretry"
 
 func checkC30(c *Ctx, r *Report) {
 	r.Explain = "Persisted-task typestate (stored-as-pending ⇒ queued or executing; otherwise stored-as-failed so the poller retries it): Remove only after a successful execution; every execution ends in MarkFailed or Remove; Add persists before enqueueing and treats an existing task as a no-op; on EVERY path through enqueue (all returns, error or not) the task was sent to the queue or MarkFailed was attempted; retry marks pending and then always reaches enqueue; start-up demotes pending tasks to failed before workers run; the poller retries only tasks returned by GetFailed; workers execute every task they receive."
-	r.NotDecided = "That a retry eventually succeeds; SQL semantics of the two stores; the time-based retry eligibility test."
+	r.NotDecided = "That a retry eventually succeeds; SQL semantics of the two stores beyond the agreement of their single-task statements on the key columns (R8); the time-based retry eligibility test."
+	defer rulesTaskKeyAgreement(c, r)
 	mS := func(m string) string { return "(" + pkgPR + ".Store)." + m }
 	exec := r.MustFunc(r.Rule("R1", "E-OWN+E-ORDER/ok", "Store.Remove is called only in the success region of Executor.Exec, in the manager's exec", 1), "(*"+pkgPR+".manager).exec")
 	r1 := r.Prop + ".R1"
